@@ -33,6 +33,7 @@ Clause(name, ok, info) == IF ok THEN TRUE ELSE PrintT(<<"REJECT", name, Rec.id, 
 
 One == <<0, 1, 1>>
 RatIs(v, n) == v[2] > 0 /\ v[1] = n * v[2]
+Clamped(v) == Abs(v[1]) >= 2147483647            \* "no value / out of range": equal to nothing, never multiplied
 
 Counters == {"ev", "ev_boundary", "ev_massless", "ev_equalmass", "box", "box_inside", "box_outside",
              "box_on_boundary", "box_s1_zero", "ov_nan", "ov_rational", "kal", "kaf", "scaled"}
@@ -79,14 +80,14 @@ BoxStep ==
 KalStep ==
   LET x == Rec.a[1]  y == Rec.a[2]  z == Rec.a[3]  d == Rec.d  v == Rec.vals IN
   /\ Clause("HarnessInputs", d > 0 /\ Len(v) = 6, <<Rec.a, d>>)
-  /\ Clause("KallenSymmetric", \A n \in 2..6 : v[n] = v[1], <<Rec.a, d, v>>)
-  /\ Clause("KallenValue", v[1][2] > 0 /\ v[1][1] * d * d = Kallen(x, y, z) * v[1][2], <<Rec.a, d, v[1]>>)
+  /\ Clause("KallenSymmetric", \A n \in 1..6 : ~Clamped(v[n]) /\ v[n] = v[1], <<Rec.a, d, v>>)
+  /\ Clause("KallenValue", ~Clamped(v[1]) /\ v[1][2] > 0 /\ v[1][1] * d * d = Kallen(x, y, z) * v[1][2], <<Rec.a, d, v[1]>>)
   /\ cnt' = Bump(cnt, {"kal"})
 KafStep ==
   LET x == Rec.a[1]  b == Rec.a[2]  c == Rec.a[3]  e == Rec.e  v == Rec.val IN
   /\ Clause("HarnessInputs", e > 0 /\ b >= 0 /\ c >= 0, <<Rec.a, e>>)
   \* Kallen(x, y, z) = (x - (sqrt y + sqrt z)^2)(x - (sqrt y - sqrt z)^2) with x = X/e^2, sqrt y = B/e, sqrt z = C/e
-  /\ Clause("KallenFactorises", v[2] > 0 /\ v[1] * e * e * e * e = KallenFactored(x, b, c) * v[2], <<Rec.a, e, v>>)
+  /\ Clause("KallenFactorises", ~Clamped(v) /\ v[2] > 0 /\ v[1] * e * e * e * e = KallenFactored(x, b, c) * v[2], <<Rec.a, e, v>>)
   /\ cnt' = Bump(cnt, {"kaf"})
 
 Step ==
